@@ -840,6 +840,15 @@ class Parser:
             # (§2:: is written §2::2): read that spelling back as what it was written from.
             section_name = section_id
             self.advance()
+        elif (
+            self.current().type == TokenType.NUMBER
+            and self.peek().type == TokenType.IDENTIFIER
+            and str(self.current().value) + str(self.peek().value) == section_id
+        ):
+            # Same for an id with a letter suffix (§2b:: is written §2b::2b).
+            section_name = section_id
+            self.advance()
+            self.advance()
         else:
             raise ParserError(
                 f"Expected section name or newline after §{section_id}::, got {self.current().type}",
